@@ -985,6 +985,16 @@ def inline_refs(schema, root, depth=6):
     return schema
 
 
+def ref_fuel(schema, root):
+    """extra fuel for the Lean evaluator when the schema reaches components through local references: every component may
+    be entered once per nesting level of the instance; bounded"""
+    if root is None or "$ref" not in json.dumps(schema):
+        return 0
+    comps = ((root.get("components") or {}).get("schemas") or {}) if isinstance(root, dict) else {}
+    comps = comps or (root.get("definitions") or {} if isinstance(root, dict) else {})
+    return min(200, 3 * sum(py_depth(c) + 2 for c in comps.values()))
+
+
 class Judge:
     """judges a value against an OpenAPI schema (request side) with the Python oracle at once and with the Lean
     specification in one batch at the end (`settle`); the two must agree"""
@@ -1000,7 +1010,7 @@ class Judge:
             ok = oas_valid(schema, v, nn, root=root, intfloat=True)
         if on_wire(v) and on_wire(schema) and in_spec(schema) and len(self.reqs) < self.cap:
             self.reqs.append(("valid", {"env": S.lean_env(schema, v, oas="request", nullable=nn, root=root), "schema": schema,
-                                        "instance": v, "fuel": 2 * py_depth(schema) + 12}))
+                                        "instance": v, "fuel": 2 * py_depth(schema) + 12 + ref_fuel(schema, root)}))
             self.expect.append((schema, v, ok))
         return ok
 
@@ -1126,6 +1136,8 @@ def draws_round(chk, drv, docs, n_draws, mechanism="draws"):
             gc = GenerationConfig(**doc["gc"])
         nn, raw = doc["nn"], doc["raw"]
         history = "positive"
+        if doc.get("satisfiable") is not None and not oas_valid(doc["body"], doc["satisfiable"], nn, root=raw):
+            raise InfraError(f"the instance shipped with a designed document does not conform to it: {doc['satisfiable']}")
         sec = doc.get("security", [])
         if sec:
             chk.feature(f"{mechanism}:security-schemes:with_security_parameters={gc.with_security_parameters}")
@@ -1152,6 +1164,12 @@ def draws_round(chk, drv, docs, n_draws, mechanism="draws"):
             name = type(e).__name__
             chk.case(mechanism, key=[dumps(raw), "error"], nontrivial=True)
             chk.feature(f"{mechanism}:no-cases:{name}")
+            if name in ("Unsatisfiable", "FailedHealthCheck") and doc.get("satisfiable"):
+                # the converse clause: the document was built together with a conforming instance
+                chk.violation("C01:as_strategy:satisfiable-operation-reported-as-impossible",
+                              f"no positive case is generated ({name}) although the declared inputs admit a conforming value "
+                              f"({json.dumps(doc['satisfiable'])[:200]})", {"document": raw, "conforming_body": doc["satisfiable"]})
+                continue
             if name in ("Unsatisfiable", "FailedHealthCheck", "Flaky", "SkipTest", "InvalidArgument"):
                 continue  # the generator gave up / contradictory schema: counted, not judged (third-party search limits)
             schemas = [param_schema(doc, d) for _, d in doc["params"]] + [inline_refs(sch, raw) for _, sch in body_alternatives(doc)]
@@ -1249,6 +1267,8 @@ def draws_round(chk, drv, docs, n_draws, mechanism="draws"):
                         ok = True
                     if not ok:
                         sig, extra = classify_body(chk, drv, doc, body_schema, case.media_type, body)
+                        if doc.get("deep_chain") and sig == "C01:draw:body-violates-its-schema":
+                            sig = "C01:remove_optional_references:body-below-the-reference-depth-limit-violates-its-schema"
                         chk.violation(sig, f"generated request body does not conform to the schema declared for its media type "
                                            f"({case.media_type})",
                                       {**rep, "media_type": case.media_type, "body": body if on_wire(body) else repr(body),
@@ -1545,7 +1565,47 @@ def _doc30(params, body=None, required=True):
             "version": "3.0"}
 
 
+def _deep_chain_doc(leaf, depth=8, draws=60):
+    """a body schema reached through `depth + 1` nested *required* local references: the innermost component is handed to
+    `remove_optional_references` (the pruning applied at the reference-depth limit of resolve_all); `leaf` is that
+    component, `Owner` a component it may refer to"""
+    comps = {}
+    for i in range(depth):
+        comps[f"L{i}"] = {"type": "object", "properties": {"next": {"$ref": f"#/components/schemas/L{i + 1}"}}, "required": ["next"],
+                          "additionalProperties": False}
+    comps[f"L{depth}"] = leaf
+    comps["Owner"] = {"type": "object", "properties": {"id": {"type": "integer", "minimum": 1}}, "required": ["id"],
+                      "additionalProperties": False}
+    d = _doc30([], {"$ref": "#/components/schemas/L0"})
+    d["raw"]["components"] = {"schemas": comps}
+    body = {"title": "a", "meta": {"owner": {"id": 1}}} if "title" in leaf.get("required", []) else \
+        {"meta": {}} if "meta" in leaf.get("required", []) else {}
+    for _ in range(depth):
+        body = {"next": body}
+    return {**d, "draws": draws, "gc": {}, "deep_chain": True, "satisfiable": body}
+
+
+_OWNER = {"$ref": "#/components/schemas/Owner"}
+DEEP_CHAIN_LEAVES = [
+    # an optional property holding a reference, additional properties allowed: pruning must not turn it into "anything"
+    {"type": "object", "properties": {"": _OWNER, "t": {"type": "string", "maxLength": 3}}},
+    {"type": "object", "properties": {"0": _OWNER}},
+    # the same one level down, inside an inline object: `required` is the inline object's own
+    {"type": "object", "properties": {"title": {"type": "string", "maxLength": 3},
+                                      "meta": {"type": "object", "properties": {"owner": _OWNER, "note": {"type": "string", "maxLength": 3}},
+                                               "required": ["owner"]}},
+     "required": ["title", "meta"], "additionalProperties": False},
+    {"type": "object", "properties": {"meta": {"type": "object", "properties": {"": _OWNER}, "required": []}}, "required": ["meta"],
+     "additionalProperties": False},
+    # optional arrays of references, optional single-item combinators over a reference
+    {"type": "object", "properties": {"xs": {"type": "array", "items": _OWNER}, "": {"allOf": [_OWNER]}}, "additionalProperties": False},
+    {"type": "object", "properties": {"": {"anyOf": [_OWNER]}}},
+    # additionalProperties given as a reference
+    {"type": "object", "properties": {"a": {"type": "integer"}}, "additionalProperties": _OWNER},
+]
+
 DRAW_WITNESSES = [
+    *[_deep_chain_doc(leaf) for leaf in DEEP_CHAIN_LEAVES],
     _doc30([{"name": "q", "in": "query", "required": True, "schema": W_F5}]),
     _doc30([], W_F4),
     _doc30([{"name": "id", "in": "path", "required": True, "schema": W_F28}]),
